@@ -633,7 +633,7 @@ Qed.
 (* ------------------------------------------------------------------ every step keeps the invariant *)
 Lemma h_step_inv env nw w st op : hinv st -> hinv (fst (h_step env nw w st op)).
 Proof.
-  intros Hi. destruct op as [rq o|rq o1 o2 bc sg|sq o1 o2 bc sg|acct listing rescan|acct it| |b fee extra bc vf]; cbn [h_step].
+  intros Hi. destruct op as [rq o|rq o1 o2 bc sg|sq o1 o2 bc sg|acct listing rescan|acct it| |b fee extra bc vf|so]; cbn [h_step].
   - destruct (h_create _ nw w st rq o); exact Hi.
   - apply after_tx_inv; [exact Hi|]. intros x E. eapply h_send_ids; eauto.
   - apply after_tx_inv; [exact Hi|]. intros x E. eapply h_sweep_ids; eauto.
@@ -660,6 +660,9 @@ Proof.
     + apply Hb. exact Hin.
     + rewrite map_app in Hin. apply in_app_or in Hin. destruct Hin as [Hin|[Hin|[]]]; [apply Hb; exact Hin|].
       subst i. apply filter_In in Hu. destruct Hi as (_ & _ & I3 & _). apply I3. exact (proj1 Hu).
+  - destruct so as [s|]; [|exact Hi].
+    destruct (existsb (fun p : Z * Z => fst p =? s) (hs_txins st)); [|exact Hi].
+    cbn [fst]. apply hinv_with_last. destruct (h_delete_inv st s Hi) as (A & _). exact A.
 Qed.
 
 Lemma h_run_in env nw w : forall ops st r,
@@ -686,7 +689,7 @@ Lemma step_auto_lemma env nw w st op st' x pushed minc acct keys :
   hinv st -> h_step env nw w st op = (st', OTx x pushed) -> auto_args op = Some (minc, acct, keys) ->
   inputs_admissible st minc acct keys (x_tx x).
 Proof.
-  intros Hi Hs Ha. destruct op as [rq o|rq o1 o2 bc sg|sq o1 o2 bc sg|a listing rescan|a it| |b fee extra bc vf];
+  intros Hi Hs Ha. destruct op as [rq o|rq o1 o2 bc sg|sq o1 o2 bc sg|a listing rescan|a it| |b fee extra bc vf|so];
     cbn [auto_args] in Ha; try discriminate; cbn [h_step] in Hs.
   - destruct (hq_inputs rq) eqn:I; [discriminate|]. inversion Ha; subst.
     destruct (h_create (he_bcount env) nw w st rq o) as [y|e] eqn:C; inversion Hs; subst.
@@ -722,13 +725,14 @@ Definition step_consumed_spec (st : hstate) (out : hout) (st' : hstate) : Prop :
   | OTx x true => consumed st' = consumed st ++ map u_id (t_inputs (x_tx x))
   | OBump b' pushed =>
       forall i, In i (consumed st') -> In i (consumed st) \/ (pushed = true /\ In i (map u_id (b_inputs b')))
+  | ODeleted => forall i, In i (consumed st') -> In i (consumed st)
   | _ => hs_txins st' = hs_txins st
   end.
 
 Lemma step_consumed_lemma env nw w st op st' out :
   hinv st -> h_step env nw w st op = (st', out) -> step_consumed_spec st out st'.
 Proof.
-  intros Hi Hs. destruct op as [rq o|rq o1 o2 bc sg|sq o1 o2 bc sg|a listing rescan|a it| |b fee extra bc vf]; cbn [h_step] in Hs.
+  intros Hi Hs. destruct op as [rq o|rq o1 o2 bc sg|sq o1 o2 bc sg|a listing rescan|a it| |b fee extra bc vf|so]; cbn [h_step] in Hs.
   - destruct (h_create _ nw w st rq o); inversion Hs; subst; reflexivity.
   - unfold after_tx in Hs. destruct (h_send _ nw w st rq o1 o2) as [x|e]; [|inversion Hs; subst; reflexivity].
     destruct (bc && sg); inversion Hs; subst; cbn; [|reflexivity]. apply h_broadcast_consumed.
@@ -749,6 +753,9 @@ Proof.
     + intros i Hin. rewrite (proj1 (h_broadcast_consumed _ _ _ _)) in Hin. apply in_app_or in Hin.
       destruct Hin as [Hin|Hin]; [left; apply Hd; exact Hin | right; auto].
     + intros i Hin. left. apply Hd. exact Hin.
+  - destruct so as [s|]; [|inversion Hs; subst; reflexivity].
+    destruct (existsb (fun p : Z * Z => fst p =? s) (hs_txins st)); inversion Hs; subst; [|reflexivity].
+    cbn. destruct (h_delete_inv st s Hi) as (_ & _ & C & _). exact C.
 Qed.
 
 Lemma history_consumed_lemma env nw w ops r :
@@ -782,6 +789,34 @@ Proof.
   intros Hi Hs u Hu Hin. pose proof (step_consumed_lemma _ _ _ _ _ _ _ Hi Hs) as C. cbn in C.
   pose proof (h_step_inv env nw w st op Hi) as Hi'. rewrite Hs in Hi'. cbn [fst] in Hi'.
   destruct Hi' as (_ & I2 & _). apply I2; [exact Hu|]. rewrite C. apply in_or_app. right. exact Hin.
+Qed.
+
+(* two stored transactions spend the same output (a replacement built with an explicit input list next to the original, an
+   imported conflicting transaction): deleting one of them leaves the output spent as long as the other is stored *)
+Lemma delete_keeps_conflict_spent st s s' i u :
+  hinv st -> In (s', i) (hs_txins st) -> s' <> s -> In u (hs_view (h_delete st s)) -> u_id u = i -> u_spent u = true.
+Proof.
+  intros Hi Hin Hne Hu E. destruct (h_delete_inv st s Hi) as ((_ & I2 & _) & _).
+  apply I2; [exact Hu|]. unfold consumed, h_delete. cbn [hs_txins]. apply in_map_iff. exists (s', i).
+  split; [cbn; auto|]. apply filter_In. split; [exact Hin|]. cbn [fst]. apply Bool.negb_true_iff. apply Z.eqb_neq. exact Hne.
+Qed.
+
+(* the same through the operation: after HDelete of transaction s no row that another stored transaction refers to is
+   offered as spendable *)
+Lemma delete_step_lemma env nw w st s st' out s' i :
+  hinv st -> h_step env nw w st (HDelete (Some s)) = (st', out) -> In (s', i) (hs_txins st) -> s' <> s ->
+  ~ In i (map fst (spendable st')).
+Proof.
+  intros Hi Hs Hin Hne. cbn [h_step] in Hs.
+  assert (Hex : existsb (fun p : Z * Z => fst p =? s) (hs_txins st) = true \/
+                existsb (fun p : Z * Z => fst p =? s) (hs_txins st) = false)
+    by (destruct (existsb (fun p : Z * Z => fst p =? s) (hs_txins st)); auto).
+  unfold spendable. rewrite map_map. cbn [fst]. intros Hc. apply in_map_iff in Hc. destruct Hc as [u [E Hu]].
+  apply filter_In in Hu. destruct Hu as [Hu Hsp].
+  destruct Hex as [Hex|Hex]; rewrite Hex in Hs; inversion Hs; subst st' out; clear Hs.
+  - cbn [with_last hs_view] in Hu. rewrite (delete_keeps_conflict_spent st s s' i u Hi Hin Hne Hu E) in Hsp. discriminate.
+  - destruct Hi as (_ & I2 & _). rewrite (I2 u Hu) in Hsp; [discriminate|].
+    unfold consumed. apply in_map_iff. exists (s', i). split; [rewrite E; reflexivity|exact Hin].
 Qed.
 
 (* ------------------------------------------------------------------ the arguments hold for the transaction finally returned *)
